@@ -883,6 +883,31 @@ func c17Tasks(tier string) []mc.Task {
 			}
 		}
 	}
+	// near-identical pairs: weights 999:1 and 399:1 make one differing column weigh as one difference in
+	// 1000 / 400 sites (ML distances of a few 1e-3, below the first point of any coarse grid); every 2x2
+	// alignment over {A,R,W,C}, both weight orders, every model and configuration
+	for _, model := range c17Models {
+		model := model
+		ts = append(ts, mc.Task{Name: fmt.Sprintf("heavyweights#%s", c17ModelNames[model]), Run: func(c *mc.Ctx) {
+			for _, mf := range []bool{true, false} {
+				for _, ga := range c17Alphas {
+					for _, wts := range [][]float64{{999, 1}, {1, 999}, {399, 1}} {
+						forEachAlignment("ARWC", 2, 2, func(seqs []string) bool {
+							// the heavy column is identical in the two rows (the near-identical regime; with the
+							// heavy column differing the pair is near saturation, where the likelihood is flat)
+							for l, wt := range wts {
+								if wt > 1 && seqs[0][l] != seqs[1][l] {
+									return true
+								}
+							}
+							c17Check(c, c17Case{Seqs: seqs, Model: model, ModelFreqs: mf, Alpha: ga, Weights: wts, RowPerm: []int{0, 1}, ColPerm: []int{0, 1}})
+							return !c.Expired()
+						})
+					}
+				}
+			}
+		}})
+	}
 	return ts
 }
 
